@@ -186,7 +186,7 @@ class IPv4FlowSpec(NLRI):
                 1: 0x00,
                 2: 0x10,
                 4: 0x20,
-                6: 0x30
+                8: 0x30
             },
             'RES': 0x00,
             'LT': 0x04,
@@ -279,11 +279,13 @@ class IPv4FlowSpec(NLRI):
                 elif '<' in data:
                     off_set = 1
                     flag_dict['LT'] = 1
-                hex_str = hex(int(data[off_set:]))[2:]
-                if len(hex_str) % 2 == 1:
-                    hex_str = '0' + hex_str
-                value_hex = bytearray.fromhex(hex_str)
-                flag_dict['LEN'] = len(value_hex)
+                value = int(data[off_set:])
+                # the value is carried in 1, 2, 4 or 8 octets (RFC 5575: value length = 1 << len)
+                value_len = 1
+                while value >= 1 << (8 * value_len):
+                    value_len *= 2
+                value_hex = binascii.a2b_hex('%0*x' % (2 * value_len, value))
+                flag_dict['LEN'] = value_len
                 opt_flag_bin = cls.construct_operator_flag(flag_dict)
                 data_bin += struct.pack('!B', opt_flag_bin)
                 data_bin += value_hex
